@@ -34,6 +34,10 @@ pub(crate) struct RepSocket {
   ingress_engine: AddressedIngressEngine,
   pending_pipe_senders: ParkingLotMutex<HashMap<usize, PipeMessageSender>>,
   state: ParkingLotMutex<RepState>,
+  /// Serialises recv()/recv_multipart(): the state check and the state update are separated by
+  /// the wait for a request, so without this two racing recvs both take a request and the
+  /// second overwrites the first requester's envelope.
+  recv_serial: tokio::sync::Mutex<()>,
   pipe_read_id_to_endpoint_uri: RwLock<HashMap<usize, String>>,
 }
 
@@ -45,6 +49,7 @@ impl RepSocket {
       ingress_engine: AddressedIngressEngine::new(max_conn),
       pending_pipe_senders: ParkingLotMutex::new(HashMap::new()),
       state: ParkingLotMutex::new(RepState::ReadyToReceive),
+      recv_serial: tokio::sync::Mutex::new(()),
       pipe_read_id_to_endpoint_uri: RwLock::new(HashMap::new()),
     }
   }
@@ -143,6 +148,9 @@ impl ISocket for RepSocket {
     if !self.core.is_running() {
       return Err(ZmqError::InvalidState("Socket is closing".into()));
     }
+    // One recv at a time from check to state update; a racing recv waits here and then sees
+    // ReceivedRequest. (Dropping the future releases the lock, so cancellation is safe.)
+    let _recv_serial_guard = self.recv_serial.lock().await;
     {
       let guard = self.state.lock();
       if !matches!(*guard, RepState::ReadyToReceive) {
@@ -230,6 +238,7 @@ impl ISocket for RepSocket {
     if !self.core.is_running() {
       return Err(ZmqError::InvalidState("Socket is closing".into()));
     }
+    let _recv_serial_guard = self.recv_serial.lock().await;
     {
       let guard = self.state.lock();
       if !matches!(*guard, RepState::ReadyToReceive) {
